@@ -78,7 +78,8 @@ pub fn run(a: &Args) {
     let n = if a.thorough { 50_000 } else { 600 };
     let mut corpus: Vec<String> = vec!["127.0.0.1:80".into(), "ws://x".into(), "".into(), "[::1]:0".into(), "localhost:80".into()];
     if let Some(p) = &a.replay {
-        corpus = std::fs::read_to_string(p).unwrap().lines().map(|l| String::from_utf8(unhex(l.split(' ').next().unwrap())).unwrap()).collect();
+        // lines: "<hex of the string>" or a case line "str <hex> ..." of an earlier run
+        corpus = std::fs::read_to_string(p).unwrap().lines().filter(|l| !l.trim().is_empty() && !l.starts_with("addr ")).map(|l| { let mut it = l.split(' '); let a = it.next().unwrap(); let tok = if a == "str" { it.next().unwrap_or("") } else { a }; String::from_utf8(unhex(tok)).unwrap_or_default() }).collect();
     }
     let total = if a.replay.is_some() { corpus.len() } else { n + corpus.len() };
     for i in 0..total {
